@@ -471,7 +471,8 @@ def finish(cfg, rep):
               wall_s=round(time.time() - rep.t0, 2), violations=len(seen))
     if getattr(rep, "proved_names", None) is not None:
         os.makedirs(os.path.join(VERIF, "scratch"), exist_ok=True)
-        with open(os.path.join(VERIF, "scratch", "proved_%s.json" % cfg.PROP), "w") as f:
+        other = "" if os.path.realpath(repo_root()) == "/repo" else "other_tree_"
+        with open(os.path.join(VERIF, "scratch", "proved_%s%s.json" % (other, cfg.PROP)), "w") as f:
             json.dump(dict(property=cfg.PROP, tree=repo_root(), head=git_head(repo_root()), discharged=rep.proved_names,
                            loop_headers=getattr(rep, "loop_headers", {})), f)
     # evidence/ describes runs against /repo itself; a run against another tree ($VERIF_REPO, used for seeded changes
